@@ -361,7 +361,7 @@ def get_PGFPrime(Pk):
     ks = np.linspace(0,maxk, maxk+1)
     Pkarray = np.array([Pk.get(k,0) for k in ks])
 
-    return lambda x: Pkarray.dot(ks*x**(ks-1))
+    return lambda x: Pkarray.dot(ks*x**np.maximum(ks-1,0)) #the k=0 term has coefficient 0; avoid 0**(-1)
 
 def get_PGFDPrime(Pk):
     r'''
@@ -381,7 +381,7 @@ def get_PGFDPrime(Pk):
     maxk = max(Pk.keys())
     ks = np.linspace(0,maxk, maxk+1)
     Pkarray = np.array([Pk.get(k,0) for k in ks])
-    return lambda x: Pkarray.dot(ks*(ks-1)*x**(ks-2))
+    return lambda x: Pkarray.dot(ks*(ks-1)*x**np.maximum(ks-2,0)) #k=0,1 terms have coefficient 0; avoid 0**(-1)
 
 
 def get_Pnk(G):
